@@ -191,6 +191,9 @@ func (e *seng) upload() {
 		fin      bool
 		violated bool
 		before   int
+		// the client gives the request up (RST_STREAM CANCEL) once this many body bytes are out; -1 never
+		cancelAt  int
+		cancelled bool
 	}
 	var ups []*up
 	violationSent, violationImpossible := false, false
@@ -227,7 +230,11 @@ func (e *seng) upload() {
 			}
 		}
 		e.byPath[p.Path] = p
-		ups = append(ups, &up{p: p})
+		u := &up{p: p, cancelAt: -1}
+		if faults && !violate && size > 0 && tp.Chance(1, 4, "up.cancel") {
+			u.cancelAt = tp.Draw(size, "up.cancel_at")
+		}
+		ups = append(ups, u)
 	}
 	if faults && total <= 40000 {
 		seg := []int{0, 3, 8}[tp.Draw(3, "net.seg")]
@@ -281,6 +288,14 @@ func (e *seng) upload() {
 				violationImpossible = true
 			}
 			for u.sent < len(p.ReqBody) {
+				if u.cancelAt >= 0 && u.sent >= u.cancelAt {
+					// the client loses interest in the middle of its upload
+					s.Fault("client_rst_mid_upload")
+					u.cancelled = true
+					s.Note("op", fmt.Sprintf("client RST_STREAM s%d (CANCEL)", id))
+					e.write(&RstStreamFrame{StreamId: StreamId(id), Status: Cancel})
+					return
+				}
 				chunk := []int{16384, 16384, 1000, 100}[tp.Draw(4, "up.chunk")]
 				if chunk > len(p.ReqBody)-u.sent {
 					chunk = len(p.ReqBody) - u.sent
@@ -333,7 +348,7 @@ func (e *seng) upload() {
 	for s.Now()-lastAt < 20*time.Second {
 		all := true
 		for _, u := range ups {
-			if !e.over(u.p.ID) {
+			if !u.cancelled && !e.over(u.p.ID) {
 				all = false
 			}
 		}
@@ -378,6 +393,10 @@ func (e *seng) upload() {
 		if !bytes.HasPrefix(p.ReqBody, p.GotBody) {
 			s.FailK("C40.body", "handler-body-altered", "stream %d: handler read %d bytes that are not a prefix of what was sent", p.ID, len(p.GotBody))
 			return
+		}
+		if u.cancelled {
+			s.Probe("spdy_upload_cancelled_by_client")
+			continue
 		}
 		if p.Read == 0 {
 			if !u.fin || len(p.GotBody) != len(p.ReqBody) {
